@@ -2,6 +2,8 @@ package nfa
 
 import (
 	"regexp/syntax"
+	"unicode"
+	"unicode/utf8"
 )
 
 // FirstByteSet represents the set of bytes that can start a match.
@@ -77,22 +79,44 @@ func extractFirstBytesRecursive(re *syntax.Regexp, result *FirstByteSet, depth i
 			return false // Empty literal matches empty string
 		}
 		r := re.Rune[0]
-		if r > 255 {
-			return false // Non-ASCII, too complex
+		if r >= utf8.RuneSelf {
+			return false // Non-ASCII: the first byte is a UTF-8 lead byte, too complex
 		}
-		result.bytes[byte(r)] = true
-		result.count++
+		if !result.bytes[byte(r)] {
+			result.bytes[byte(r)] = true
+			result.count++
+		}
+		if re.Flags&syntax.FoldCase != 0 {
+			// Case-insensitive literal: every rune of the fold orbit can start a match.
+			for f := unicode.SimpleFold(r); f != r; f = unicode.SimpleFold(f) {
+				if f >= utf8.RuneSelf {
+					return false // e.g. k/K/KELVIN SIGN, s/ſ
+				}
+				if !result.bytes[byte(f)] {
+					result.bytes[byte(f)] = true
+					result.count++
+				}
+			}
+		}
 		return true
 
 	case syntax.OpCharClass:
 		// Character class: add all bytes in the class
 		for i := 0; i < len(re.Rune); i += 2 {
 			lo, hi := re.Rune[i], re.Rune[i+1]
-			if hi > 255 {
-				hi = 255 // Truncate to ASCII
+			if hi >= utf8.RuneSelf {
+				// Non-ASCII members are encoded with a lead byte >= 0x80:
+				// conservatively allow every such byte.
+				for b := 0x80; b <= 0xFF; b++ {
+					if !result.bytes[b] {
+						result.bytes[b] = true
+						result.count++
+					}
+				}
+				hi = utf8.RuneSelf - 1
 			}
-			if lo > 255 {
-				continue // Skip non-ASCII ranges
+			if lo >= utf8.RuneSelf {
+				continue
 			}
 			for r := lo; r <= hi; r++ {
 				if !result.bytes[byte(r)] {
@@ -124,12 +148,15 @@ func extractFirstBytesRecursive(re *syntax.Regexp, result *FirstByteSet, depth i
 		return true
 
 	case syntax.OpBeginLine, syntax.OpBeginText:
-		// Anchors don't consume bytes, skip to next
-		return true
+		// A start anchor on its own (e.g. a branch of ^(?:^|a)) matches the empty
+		// string whatever the first byte is; leading anchors of a concatenation
+		// are skipped by the OpConcat case before recursing.
+		return false
 
 	case syntax.OpEndLine, syntax.OpEndText:
-		// End anchors: pattern could match at end, need to check next part
-		return true
+		// An end anchor consumes nothing, so it says nothing about the first
+		// byte (with (?m) it even holds in front of any "\n"): no information.
+		return false
 
 	case syntax.OpCapture:
 		// Capture group: recurse into content
